@@ -243,7 +243,10 @@ Theorem relocator_spec : forall s,
                   (forall j, j < count -> mem (hp s') (dst (next (hp s)) j) = mem (hp s) (src j) /\ mem (hp s') (src j) = Raw) /\
                   (forall l, fst l < next (hp s) -> ~ fp l -> (forall j, j < count -> src j <> l) ->
                              (forall j, j < count -> dst (next (hp s)) j <> l) -> mem (hp s') l = mem (hp s) l) /\
-                  rfields_same (hp s) (hp s'))
+                  rfields_same (hp s) (hp s') /\
+                  (* what the item creator established survives: R held between the heap with the nodes built aside and the heap after
+                     the relocation, and the commit did not touch any cell *)
+                  (exists h1 h2, allocd (hp s) sizes (length sizes) h1 /\ R h1 h2 /\ forall l, mem (hp s') l = mem h2 l))
      (fun s' => rolled_back (hp s) (hp s')).
 Proof.
   intros s W Hne Hex Hfp Hplan Hnd Holds Hfpold Hdstold.
@@ -264,7 +267,7 @@ Proof.
     destruct (Hplan (hp s1) Al) as [Hpre HP].
     eapply wp_mono. { eapply relocate_create_spec; eauto. }
     + intros _ s2 [[D1 D2 D3 D4 D5] HR]. simpl.
-      destruct Al as [A1 A2 A3 A4 A5 A6 A7 A8 A9].
+      pose proof Al as Al'. destruct Al as [A1 A2 A3 A4 A5 A6 A7 A8 A9].
       assert (Oldlt : forall b, In b olds -> b < first) by (intros b Hb; apply wf_lt; auto; apply Holds; auto).
       apply wp_free_list; auto.
       * intros b Hb. destruct (Holds b Hb) as [Ab Hcells]. specialize (Oldlt b Hb). split.
@@ -277,23 +280,24 @@ Proof.
            ++ apply Hfpold; auto.
            ++ intros j Hj. apply N; lia.
            ++ intros j Hj E. apply (Hdstold j Hj). rewrite E. exact Hb.
-      * intros s3 M B N Rg F1 F2. repeat split.
+      * intros s3 M B N Rg F1 F2. split; [|split; [|split; [|split; [|split; [|split]]]]].
         -- exact F1.
         -- intros i Hi. rewrite F2. { rewrite (ag_alive _ _ _ D4). apply A5; auto. }
            intro Hin. specialize (Oldlt _ Hin). unfold first in Oldlt. lia.
         -- intros b Hb Hn. rewrite F2 by auto. rewrite (ag_alive _ _ _ D4). apply A3; auto.
-        -- rewrite M, D1 by auto. destruct (rp_cells _ _ _ _ Hpre j H) as [Vs _].
-           apply A2. (* the source is in an old node *)
-           destruct (le_lt_dec first (fst (src j))) as [Hge|Hlt]; auto. exfalso.
-           (* a source in a new node would be raw there *)
-           destruct (rp_cells _ _ _ _ Hpre j H) as [_ [_ [[v Hv] _]]].
-           unfold valid in Vs. apply andb_true_iff in Vs. destruct Vs as [Va _].
-           destruct (le_lt_dec (first + length sizes) (fst (src j))). { rewrite A8 in Va by auto. discriminate. }
-           replace (src j) with (first + (fst (src j) - first), snd (src j)) in Hv by (destruct (src j); simpl in *; f_equal; lia).
-           rewrite A7 in Hv by lia. discriminate.
-        -- rewrite M. apply D2; auto.
+        -- intros j H. split.
+           ++ rewrite M, D1 by auto. destruct (rp_cells _ _ _ _ Hpre j H) as [Vs _].
+              apply A2. (* the source is in an old node *)
+              destruct (le_lt_dec first (fst (src j))) as [Hge|Hlt]; auto. exfalso.
+              destruct (rp_cells _ _ _ _ Hpre j H) as [_ [_ [[v Hv] _]]].
+              unfold valid in Vs. apply andb_true_iff in Vs. destruct Vs as [Va _].
+              destruct (le_lt_dec (first + length sizes) (fst (src j))). { rewrite A8 in Va by auto. discriminate. }
+              replace (src j) with (first + (fst (src j) - first), snd (src j)) in Hv by (destruct (src j); simpl in *; f_equal; lia).
+              rewrite A7 in Hv by lia. discriminate.
+           ++ rewrite M. apply D2; auto.
         -- intros l Hl Hf Hs Hd. rewrite M, D3 by auto. apply A2; auto.
         -- intros r H1 H2 H3. rewrite Rg, D5 by auto. apply A9; auto.
+        -- exists (hp s1), (hp s2). split; [exact Al'|split; [exact HR|exact M]].
     + (* the relocation or the creator threw: the destructor frees the nodes built aside *)
       intros s2 U. simpl.
       apply (wp_rollback (hp s) sizes (length sizes) s2); auto.
